@@ -1,12 +1,12 @@
 """C01 plan (see lib/plan.py for the format)."""
-from plan import R, D, stages
+from plan import R, D, T, stages
 import fuzzstage
 
 PLAN = dict(
     extra={"thorough": [fuzzstage.diff_stage(0, "C01")]},
     **stages(
-        quick=[(R, "quick", 16), (D, "small", 16)],
-        thorough=[(R, "thorough", 16), (D, "quick", 16)],
+        quick=[(R, "quick", 16), (D, "small", 16), (T, "small", 16)],
+        thorough=[(R, "thorough", 16), (D, "quick", 16), (T, "quick", 16)],
     ),
     rule=("cases are (A,B) version pairs: seeded random pairs from the version grammar V, "
           "one-edit near neighbours in both orders, real pkgsrc comparison patterns x real "
